@@ -21,7 +21,7 @@ INFO = {
                    "nothing evicts cache entries. NOT decided: arbitrary thread interleavings (the code has no lock "
                    "discipline to analyse) and value-level aliasing of coefficient objects between operand and result.",
     "decided": ["C09.name-injective", "C09.by-name-twin", "C09.exception-atomic", "C09.storage-writers",
-                "C09.closed-functions", "C10.no-eviction"],
+                "C09.numspace-writers", "C09.module-state", "C09.closed-functions", "C10.no-eviction"],
     "not_decided": ["thread interleavings (clause d)", "aliasing of coefficient objects between operands and results"],
     "assumptions": ["sympy code generation is deterministic for a given cache key"],
 }
@@ -432,3 +432,74 @@ def closed_functions(ctx):
                                  f"mutable module state", call, module=mname)
             else:
                 raise Unknown(c, f"unrecognised exec globals {un(g)!r}", call)
+
+
+# --------------------------------------------------------------------------- no hidden module-level state
+MUTABLE_CTORS = {"dict", "list", "set", "defaultdict", "OrderedDict", "Counter", "deque", "WeakValueDictionary", "WeakKeyDictionary"}
+
+
+def module_state_writes(repo):
+    """Functions that mutate a module-level mutable container of their own module: [(module, qual, node, name)]."""
+    out = []
+    for mname, mod in repo.modules.items():
+        containers = set()
+        for st in mod.tree.body:
+            if isinstance(st, (ast.Assign, ast.AnnAssign)):
+                v = st.value
+                tg = st.targets if isinstance(st, ast.Assign) else [st.target]
+                if isinstance(v, (ast.Dict, ast.List, ast.Set, ast.ListComp, ast.DictComp, ast.SetComp)) or (
+                        isinstance(v, ast.Call) and (call_name(v) or "").split(".")[-1] in MUTABLE_CTORS):
+                    for t in tg:
+                        if isinstance(t, ast.Name):
+                            containers.add(t.id)
+        if not containers:
+            continue
+        for _, qual, fn in [x for x in repo.all_functions() if x[0] == mname]:
+            local = {a.arg for a in fn.args.args + fn.args.kwonlyargs + fn.args.posonlyargs}
+            for n in walk_shallow(fn):
+                if isinstance(n, ast.Assign):
+                    for t in n.targets:
+                        if isinstance(t, ast.Name):
+                            local.add(t.id)
+            for n in walk_shallow(fn):
+                name = None
+                if isinstance(n, (ast.Assign, ast.AugAssign)):
+                    for t in (n.targets if isinstance(n, ast.Assign) else [n.target]):
+                        if isinstance(t, ast.Subscript) and isinstance(t.value, ast.Name):
+                            name = t.value.id
+                elif isinstance(n, ast.Call) and isinstance(n.func, ast.Attribute) and isinstance(n.func.value, ast.Name) \
+                        and n.func.attr in ("setdefault", "update", "append", "extend", "add", "pop", "clear", "insert", "__setitem__"):
+                    name = n.func.value.id
+                elif isinstance(n, ast.Global):
+                    for g in n.names:
+                        out.append((mname, qual, n, g))
+                if name in containers and name not in local:
+                    out.append((mname, qual, n, name))
+    return out
+
+
+@rule("C09.module-state", props=["C09", "C18", "C14"], min_instances=1, mutants=[
+    ("matrix basis shared between algebra instances by (p, q, r)", [
+        ("algebra", "operation_field = partial(field, default_factory=dict, init=False, repr=False, compare=False)", "operation_field = partial(field, default_factory=dict, init=False, repr=False, compare=False)\n_matrix_basis_cache = {}"),
+        ("algebra", "        return matrix_rep(self.p, self.q, self.r, signature=self.signature)", "        pqr = (self.p, self.q, self.r)\n        if pqr not in _matrix_basis_cache:\n            _matrix_basis_cache[pqr] = matrix_rep(*pqr, signature=self.signature)\n        return _matrix_basis_cache[pqr]")]),
+])
+def module_state(ctx):
+    """No function of the package keeps results in module-level mutable state: whatever is remembered lives on the
+    algebra / multivector object it belongs to, so one object's history cannot leak into another's results."""
+    repo = ctx.repo
+    hits = module_state_writes(repo)
+    for mname, qual, node, name in hits:
+        ctx.violation(f"{qual}#module-state:{name}", f"{qual} stores into the module-level container {name!r} ({un(node)[:70]}): "
+                      f"results are remembered across algebra instances under a key that need not determine them, so what "
+                      f"an operation returns depends on which algebras were used before", node, module=mname)
+    if not hits:
+        ctx.ok("package#no-module-state", None, module="algebra", modules=len(repo.modules))
+
+
+@fixture_for("C09.module-state")
+def _fx_module_state(ctx):
+    from ..model import Repo
+    src = "_cache = {}\n\ndef f(k):\n    if k not in _cache:\n        _cache[k] = k * 2\n    return _cache[k]\n"
+    repo = Repo({"algebra": ("fixture", src)}, {}, "fixture")
+    for mname, qual, node, name in module_state_writes(repo):
+        ctx.violation(f"{qual}#module-state:{name}", "fixture")
